@@ -347,7 +347,7 @@ package vegeta
 //@   inline
 
 //@ func NewRoundRobinDecoder$1
-//@   property C13 C16 C17
+//@   property C13 C16 C17 C09
 //@   uses rot_injective
 //@   returns (err)
 //@   requires [at-least-one] len(dec) >= 1
@@ -495,7 +495,9 @@ package vegeta
 //@   before call Unlock: assert [C05-seq-and-timestamp-from-one-section] sections == 0 && res.Seq == seqAtLock && atk.seq == seqAtLock + 1 ;
 //@        assert [C05-timestamp-not-before-previous-hit] res.Timestamp >= lastTsAtLock ;
 //@        assert [C05-monitor-invariant-reestablished] res.Timestamp <= clock(0) ;
-//@        ghost sections = sections + 1
+//@        ghost sections = sections + 1 ; ghost tsAtUnlock = res.Timestamp
+//@   ghost tsAtUnlock int
+//@   ensures [C05-timestamp-is-the-one-taken-with-the-sequence-number] result.Timestamp == tsAtUnlock
 //@   at call tr: ghost targeterFailed = (result != nil)
 //@   at call Stop: ghost stopped = true
 //@   at call Set: assert [C06-attack-name-header] arg1 == "X-Vegeta-Attack" ==> arg2 == atk.name && atk.name != "" ;
@@ -665,7 +667,7 @@ package vegeta
 // HTTP targeter: the whole decode is one critical section under mu; it writes only *tgt, the
 // scanner state and fresh memory (frame): neither the defaults nor any target returned earlier.
 //@ func NewHTTPTargeter$1
-//@   property C14 C15 C16
+//@   property C14 C15 C16 C02
 //@   returns (err)
 //@   guarded peekingScanner by &mu
 //@   guarded bufio.Scanner by &mu
@@ -916,7 +918,7 @@ package vegeta
 // JSON decoder: only a complete, newline-terminated line is ever handed to the unmarshaller; when the
 // line read fails (torn last line, end of stream) the function returns before touching *r.
 //@ func NewJSONDecoder$1
-//@   property C09 C16
+//@   property C09 C16 C08 C17
 //@   returns (err)
 //@   requires [non-nil] r != nil && rd != nil
 //@   modifies *r, *rd, ghost(bytesleft, rd)
